@@ -205,6 +205,18 @@ def info_schema(ctx):
                                 ok = bool(re.search(r"@Some\.0\.0[)}]", v0 + "}")) and bool(re.search(r"@Some\.0\.1[)}]", v1 + "}"))
         ctx.check(ok, R, "writer keeps (first, second) order of %s" % getter, "", "create_table does not write the two components of %s() in order" % getter, wfn.loc(), fn=f.name,
                   key="%s|w-order|%s" % (R, getter))
+    # what a getter returns is stored whatever it is: the writer does not pick out single categories (or ranges, keys) to leave unsaved
+    picky = []
+    for g in [wfn] + list(wfn.closures):
+        Sg = S if g is wfn else Sym(prog, g)
+        for bl in g.blocks:
+            if bl["cleanup"] or bl["term"]["t"] != "switch":
+                continue
+            v = Sg.val(bl["term"]["discr"])
+            if re.search(r"Column::category(@Some\.0|\)@Some\.0)", v) or re.search(r"^discr\(.*Column::category.*@Some\.0\)$", v):
+                picky.append(v[:80])
+    ctx.check(not picky, R, "every category is written", "", "create_table's _Validation row tests which category a column has (%s): some categories are not stored, so the reopened "
+              "column reports none" % picky, wfn.loc(), fn=f.name, key="%s|w|category-variant" % R)
     # reader
     o = prog.fn(OPEN)
     So = Sym(prog, o)
